@@ -940,13 +940,15 @@ func c18MarksBFS(r *core.Rec, zero bool, depth int) int64 {
 		}
 		return m, set, cs
 	}
+	// state key: the model set plus EVERY field of the implementation object read by
+	// reflection (storage, and whatever else a change to the library may add)
 	type key struct {
-		set uint32
-		ln  int
+		set  uint32
+		impl string
 	}
 	seen := map[key]bool{}
 	m0, _, _ := build(nil)
-	seen[key{0, marksLen(m0)}] = true
+	seen[key{0, core.DeepKey(m0)}] = true
 	frontier := []node{{nil}}
 	r.Case("marks", &C18MarksCase{Zero: zero})
 	r.Try(func() { c18MarksObserve(m0, map[int]bool{}, r, "initial") })
@@ -972,11 +974,8 @@ func c18MarksBFS(r *core.Rec, zero bool, depth int) int64 {
 					r.Try(func() { c18Marks(cs, r) })
 					continue
 				}
-				k := key{set, marksLen(m)}
-				if seen[k] {
-					continue
-				}
-				seen[k] = true
+				// observe after EVERY transition (a state reached again by another path may
+				// differ in something the key does not see), de-duplicate only the frontier
 				r.Case("marks", cs)
 				if set != 0 {
 					r.NT()
@@ -988,7 +987,12 @@ func c18MarksBFS(r *core.Rec, zero bool, depth int) int64 {
 					}
 				}
 				r.Try(func() { c18MarksObserve(m, model, r, "state") })
-				r.Outcome(uint64(set)<<20 | uint64(k.ln))
+				k := key{set, core.DeepKey(m)}
+				if seen[k] {
+					continue
+				}
+				seen[k] = true
+				r.Outcome(uint64(set)<<20 | uint64(marksLen(m)))
 				next = append(next, node{path})
 			}
 		}
